@@ -97,8 +97,9 @@ func (c *mapClass_[K, V]) MakeFromMap(associations map[K]V) MapLike[K, V] {
 func (c *mapClass_[K, V]) MakeFromSequence(
 	associations Sequential[AssociationLike[K, V]],
 ) MapLike[K, V] {
-	var size = associations.GetSize()
+	// The sequence may be in use so its size is taken from the iterator.
 	var iterator = associations.GetIterator()
+	var size = iterator.GetSize()
 	var duplicate = make(map[K]V, size)
 	for index := 0; index < size; index++ {
 		var association = iterator.GetNext()
@@ -148,11 +149,12 @@ func (v map_[K, V]) GetKeys() Sequential[K] {
 }
 
 func (v map_[K, V]) GetValues(keys Sequential[K]) Sequential[V] {
-	var size = keys.GetSize()
+	// The sequence of keys may be in use so its size is taken from the iterator.
+	var iterator = keys.GetIterator()
+	var size = iterator.GetSize()
 	var array = make([]V, size)
 	var values = array_[V](array)
 	var index = 1
-	var iterator = keys.GetIterator()
 	for iterator.HasNext() {
 		var key = iterator.GetNext()
 		var value = v.GetValue(key)
@@ -171,11 +173,12 @@ func (v map_[K, V]) RemoveValue(key K) V {
 }
 
 func (v map_[K, V]) RemoveValues(keys Sequential[K]) Sequential[V] {
-	var size = keys.GetSize()
+	// The sequence of keys may be in use so its size is taken from the iterator.
+	var iterator = keys.GetIterator()
+	var size = iterator.GetSize()
 	var array = make([]V, size)
 	var values = array_[V](array)
 	var index = 1
-	var iterator = keys.GetIterator()
 	for iterator.HasNext() {
 		var key = iterator.GetNext()
 		var value = v.RemoveValue(key)
